@@ -42,6 +42,9 @@ func checkC13Scte(c CaseC13Scte, x *hx.Ctx) *hx.Failure {
 		}
 		s, err := scte35.NewSCTE35(in)
 		if err != nil {
+			if c.C.BadCRC > 0 {
+				return nil // a decoder may verify CRC_32; only what it accepts must be re-emitted correctly
+			}
 			return hx.Failf("decode-error", "NewSCTE35 failed on a well-formed section: %v", err)
 		}
 		st.sig = s
@@ -97,7 +100,7 @@ func checkC13Pmt(c CaseC14, x *hx.Ctx) *hx.Failure {
 	}
 	out, _ := psi.FilterPMTPacketsToPids(in, append([]int{}, c.Request...))
 	x.Label("emitted=filtered-pmt")
-	if out == nil || len(c.Request) == 0 {
+	if len(out) == 0 || len(c.Request) == 0 {
 		return nil
 	}
 	x.NonTrivial()
@@ -108,6 +111,9 @@ func checkC13Pmt(c CaseC14, x *hx.Ctx) *hx.Failure {
 			return hx.Failf("emitted-pmt", "output packet without payload: %v", err)
 		}
 		got = append(got, pl...)
+	}
+	if len(got) == 0 {
+		return hx.Failf("emitted-pmt", "the filter returned packets without payload bytes")
 	}
 	start := 1 + int(got[0])
 	if start+3 > len(got) {
